@@ -29,7 +29,8 @@ META = {
         'text cannot be accepted), lists/dicts/nested grids inside their brackets, no 3.0-only alternative in the 2.0 '
         'alternation, anchored version regex.  (D5) every piece of a multi-grid document is parsed on every returning path of parser.parse (path enumeration; `single` only selects from the parsed list).  (D6) no regex applied to the text on the ZINC path has a repeat with an iteration-ambiguous body (exponential backtracking).  Also (D4): version.VERSION_RE accepts only texts starting with a digit; (D3) no grammar element reachable from the scalar alternations uses pyparsing\'s error stop (`-`) unless parse_scalar converts ParseFatalException.  Not decided: termination of the grammar recursion; that line/col lie within the text.'
         ' Also (D3): iso8601.parse_date is not told default_timezone=None (the naive-stamp branch of _parse_datetime calls a method pytz does not have).  (D4) Grid.__init__ hands every version other than None to Version() -- decision table of the guard over None, the empty text, 2.0 -- the only check a nested grid header gets.'
-        ' Also (D4): IGNORECASE regexes are modelled (case closure), so an escape alternative widened by a flag is seen by the envelope.'),
+        ' Also (D4): IGNORECASE regexes are modelled (case closure), so an escape alternative widened by a flag is seen by the envelope.'
+        ' Also (D3): an escape look-up table covers every escape character the token regexes allow.  (D4) reference names stay inside the Haystack reference alphabet.'),
     'rule_text': 'obligations = wrapper facts, calls inside handlers x may-raise table, parse actions x may-raise table, '
                  'envelopes',
     'trusted_base': ['spec/may_raise.json (library exception facts); logging calls do not raise'],
@@ -58,6 +59,9 @@ def run(ctx):
     _error_stops(ctx)
     _naive_stamps(ctx)
     _nested_version(ctx)
+    # reference names stay inside the Haystack reference alphabet (ASCII letters and digits, _ : - . ~)
+    from . import c12
+    c12._ref_token(ctx, G.grammar_of(ctx.model, 'zincparser'), rule='C09.D4', F=FP, where_='zinc')
 
 
 def _nested_version(ctx):
@@ -583,6 +587,51 @@ def _actions(ctx):
                                  '\\u followed by four hex digits)' % which, True, '%s:%s' % (FP, el.lineno))
     except (Unsupported, AnalysisError) as e:
         ctx.error('C09.D3', str(e))
+    # a look-up table indexed by the escape character: every character the token regexes allow after a backslash
+    # must be one of its keys (the URI token allows more escapes than the string token), or KeyError leaves parse_scalar
+    try:
+        ue = m.func('zincparser', '_unescape')
+        escvars = {t.id for a in ast.walk(ue) if isinstance(a, ast.Assign) and isinstance(a.value, ast.Subscript)
+                   and norm(a.value.slice) == '1' for t in a.targets if isinstance(t, ast.Name)}
+        tables = []
+        for sub in ast.walk(ue):
+            if isinstance(sub, ast.Subscript) and isinstance(sub.ctx, ast.Load) and isinstance(sub.value, ast.Name) \
+                    and isinstance(sub.slice, ast.Name) and sub.slice.id in escvars:
+                tab = m.fold('zincparser', sub.value)
+                if isinstance(tab, dict):
+                    guarded = False
+                    p_ = getattr(sub, '_parent', None)
+                    while p_ is not None and p_ is not ue:
+                        if isinstance(p_, ast.Try) and any(h.type is None or 'KeyError' in norm(h.type) or 'Exception' in norm(h.type)
+                                                           or 'LookupError' in norm(h.type) for h in p_.handlers):
+                            guarded = True
+                        if isinstance(p_, ast.If) and ('%s in %s' % (sub.slice.id, sub.value.id)) in norm(p_.test):
+                            guarded = True
+                        p_ = getattr(p_, '_parent', None)
+                    tables.append((sub, tab, guarded))
+        for sub, tab, guarded in tables:
+            if guarded:
+                ctx.ob('C09.D3', '_unescape: the look-up %s is guarded' % norm(sub), True, '%s:%d' % (FP, sub.lineno))
+                continue
+            for which in ('str', 'uri'):
+                el = g.get('hs_%sChar' % which)
+                rx = G.ToRx().rx(el)
+                keys = L.iv_norm([(ord(k), ord(k)) for k in tab if isinstance(k, str) and len(k) == 1] + [(ord('u'), ord('u')), (ord('U'), ord('U'))])
+                missing = L.find_common(rx, L.rcat(L.rlit('\\'), L.rset(L.iv_compl(keys)), L.rany_star()))
+                if missing is not None:
+                    ch = chr(missing[1]) if len(missing) > 1 else '?'
+                    ctx.violation('C09.D3', '%s::_unescape' % FP, norm(sub),
+                                  'parse_scalar of the %s literal containing the escape \\%s (which hs_%sChar accepts): `%s` has no entry '
+                                  'for %r -- KeyError leaves parse_scalar, not a ValueError-family exception'
+                                  % ('URI' if which == 'uri' else 'string', ch, which, norm(sub), ch),
+                                  'the escape table %s lacks an escape character the %s token allows' % (sub.value.id, which),
+                                  file=FP, line=sub.lineno, engine='E3')
+                    break
+            else:
+                ctx.ob('C09.D3', '_unescape: every escape character the tokens allow is a key of %s' % sub.value.id, True,
+                       '%s:%d' % (FP, sub.lineno))
+    except (Unsupported, AnalysisError) as e:
+        ctx.error('C09.D3', 'escape table look-up: %s' % e)
 
 
 def _widen(rx):
